@@ -20,6 +20,7 @@ import (
 	ctypes "github.com/ovrclk/akash/provider/cluster/types"
 	"github.com/ovrclk/akash/provider/event"
 	"github.com/ovrclk/akash/pubsub"
+	dtypes "github.com/ovrclk/akash/x/deployment/types"
 	"verif.local/gosched/vs"
 	"verif.local/gosched/vtime"
 )
@@ -165,12 +166,29 @@ type state struct {
 	calls []*invCall
 	log   []*opRec
 
+	// The caller-owned request objects: ONE group specification object per group name, handed to every
+	// reserve() of the execution that asks for that group (a bid engine retrying after a refusal, a
+	// reserve / release / reserve cycle, two orders created from one specification all present the same
+	// object again). specWant is its rendering taken at construction, before any call; the oracle itself
+	// never reads these objects (it computes from the integer GroupSpec of the configuration).
+	specs       map[string]*dtypes.GroupSpec
+	specWant    map[string]string
+	specMutAt   int // index of the operation after whose quiescence a spec first rendered differently; -1
+	specMutName string
+	specMutNow  string
+
 	startErr string
 }
 
 func mcFactory(cfg *MCConfig, depth int) vs.Factory {
 	return func() vs.Exec {
-		h := &state{cfg: cfg, depth: depth}
+		h := &state{cfg: cfg, depth: depth, specs: map[string]*dtypes.GroupSpec{}, specWant: map[string]string{}, specMutAt: -1}
+		for _, sl := range cfg.Slots {
+			if _, ok := h.specs[sl.Group.Name]; !ok {
+				h.specs[sl.Group.Name] = realGroup(sl.Group)
+				h.specWant[sl.Group.Name] = fmtGroup(realGroup(sl.Group))
+			}
+		}
 		return vs.Exec{Body: h.body, Check: h.check}
 	}
 }
@@ -260,6 +278,20 @@ func (h *state) menu() []Op {
 	return m
 }
 
+// checkSpecs compares every caller-owned specification object with the copy taken before any call.
+func (h *state) checkSpecs(idx int) {
+	if h.specMutAt >= 0 {
+		return
+	}
+	for _, sl := range h.cfg.Slots {
+		name := sl.Group.Name
+		if now := fmtGroup(h.specs[name]); now != h.specWant[name] {
+			h.specMutAt, h.specMutName, h.specMutNow = idx, name, now
+			return
+		}
+	}
+}
+
 // observe runs at a quiescent point (right after EnvTurn): what has completed, what has changed.
 func (h *state) observe() {
 	idx := len(h.log) - 1
@@ -275,7 +307,8 @@ func (h *state) observe() {
 		}
 		sig = append(sig, rec.done, rec.mutatedAt)
 	}
-	sig = append(sig, len(h.calls))
+	h.checkSpecs(idx)
+	sig = append(sig, len(h.calls), h.specMutAt)
 	vs.Note(sig...)
 }
 
@@ -324,7 +357,7 @@ func (h *state) fire(op Op, forced bool) {
 		slot := h.cfg.Slots[op.Arg]
 		vs.GoDaemon(func() { // may stay blocked: the service accepts requests only after a successful refresh
 			vs.Label(op.String())
-			r, err := h.inv.Reserve(orderID(slot.Order), realGroup(slot.Group))
+			r, err := h.inv.Reserve(orderID(slot.Order), h.specs[slot.Group.Name])
 			if err == nil {
 				rec.granted, rec.resv, rec.atGrant = true, r, fmtGroup(r.Resources())
 			}
@@ -541,6 +574,7 @@ func (h *state) check(r *vs.Result) (string, []string) {
 			}
 		}
 	}
+	h.checkSpecs(n - 1)
 	if r.Status != vs.StatusDone {
 		// deadlock / panic: reported by the engine itself; the model is not evaluated on a broken run
 		return "status=" + r.Status.String(), nil
@@ -805,6 +839,11 @@ func (h *state) check(r *vs.Result) (string, []string) {
 			}
 			v.add("reservation-amounts-mutated:by-"+kind, "the reservation granted by operation %d (%s) held %s when reserve() returned and holds %s after [%s] (changed during %s)", id, rec.op, rec.atGrant, rec.mutatedNow, h.opsUpTo(rec.mutatedAt), by)
 		}
+	}
+
+	if h.specMutAt >= 0 {
+		v.add("caller-spec-mutated", "the group specification %q handed to reserve() was %s before any call and is %s after [%s] (changed during %s): the service modified the caller's request object",
+			h.specMutName, h.specWant[h.specMutName], h.specMutNow, h.opsUpTo(h.specMutAt), h.log[h.specMutAt].op)
 	}
 
 	h.checkTwins(r, &v)
